@@ -245,18 +245,6 @@ class Matrix:
         """jobs: dicts with case, words, exe, flavour, pb, db, spurious, [horizon], [weight].  oracle(job, outcome) -> [(key,msg)]"""
         jobs = sorted(jobs, key=lambda j: -j.get('weight', 1))
 
-        import queue
-        cpus = queue.Queue()
-        for c in range(workers or NCPU):
-            cpus.put(c % (os.cpu_count() or 1))
-
-        def one(job):
-            cpu = cpus.get()
-            try:
-                return one_(job, cpu)
-            finally:
-                cpus.put(cpu)
-
         def one_(job, cpu):
             if self.machinery:
                 return None
@@ -291,14 +279,34 @@ class Matrix:
             except MachineryError as e:
                 self.machinery = str(e)
                 return None
-        results = pmap(one, jobs, workers or NCPU)
+        # phases by the explorer-internal parallelism k (--jobs): k=16 one at a time, k=4 four side by side, k=1 sixteen side by side;
+        # an explorer started in slot i pins its executions to CPUs i*k .. i*k+k-1
+        import queue
+        ncpu = workers or NCPU
+        ordered, results = [], []
+        for k in sorted(set(j.get('jobs', 1) for j in jobs), reverse=True):
+            part = [j for j in jobs if j.get('jobs', 1) == k]
+            conc = max(1, ncpu // k)
+            slots = queue.Queue()
+            for i in range(conc):
+                slots.put(i)
+
+            def one(job, k=k, slots=slots):
+                i = slots.get()
+                try:
+                    return one_(job, (i * k) % (os.cpu_count() or 1))
+                finally:
+                    slots.put(i)
+            ordered += part
+            results += pmap(one, part, conc)
+        jobs = ordered
         if self.machinery:
             raise MachineryError(self.machinery)
         st = self.stats
         for job, res in zip(jobs, results):
             if res == 'skipped' or res is None:
                 st['exhaustive'] = False
-                st['bounds_completed'] = -1 if st['bounds_completed'] is None else min(st['bounds_completed'], -1)
+                st['bounds_completed'] = -1
                 continue
             d = res['done']
             st['schedules'] += d['execs']
@@ -308,7 +316,14 @@ class Matrix:
             for k in range(4):
                 st['dev_hist'][k] += d['dev_hist'][k]
             bc = d['bounds_completed']
-            st['bounds_completed'] = bc if st['bounds_completed'] is None else min(st['bounds_completed'], bc)
+            cut = bc if bc < job['pb'] else 99
+            st['bounds_completed'] = cut if st['bounds_completed'] is None else min(st['bounds_completed'], cut)
+            st['pb_max'] = max(st.get('pb_max', 0), job['pb'])
+            mixk = '%s pb=%d db=%d %s' % (job.get('mix', '%d threads' % len(job['words'])), job['pb'], job.get('db', 0), job['flavour'])
+            bm = st.setdefault('by_mix', {}).setdefault(mixk, {'cases': 0, 'schedules': 0, 'preemption_bound_completed': bc})
+            bm['cases'] += 1
+            bm['schedules'] += d['execs']
+            bm['preemption_bound_completed'] = min(bm['preemption_bound_completed'], bc)
             if not d['exhaustive']:
                 st['exhaustive'] = False
             for l in res['levels']:
@@ -363,7 +378,9 @@ class Matrix:
             spb[str(p)] = {'new': self.per_bound[p], 'cumulative': cum}
         cov['schedules_per_bound'] = spb
         cov['schedules_by_environment_deviations'] = st['dev_hist']
-        cov['bounds_completed'] = st['bounds_completed']
+        bc = st['bounds_completed']
+        cov['bounds_completed'] = st.get('pb_max', 0) if bc is None or bc >= 99 else bc   # largest preemption bound completed by every case (cases ask for at most their own pb)
+        cov['by_thread_mix_and_bounds'] = st.get('by_mix', {})
         if not st['exhaustive']:
             cov['exhaustive'] = False
         cov['rule'] = rule
